@@ -579,6 +579,34 @@ func c13Run(c *core.Ctx) {
 			}
 		}
 	}
+	// every PLMN: all 1000 MCCs x two- and three-digit MNCs (a PLMN range a regional rule singles out has no
+	// representative in a small PLMN alphabet), through the TAI list (alone and next to a TAI of the base PLMN), the
+	// service-area list and the LADN
+	for mcc := 0; mcc < 1000; mcc++ {
+		if !c.Mine(mcc) {
+			continue
+		}
+		for _, mnc := range []string{"26", "00", "99", "260", "026", "999"} {
+			m := fmt.Sprintf("%03d", mcc)
+			for _, l := range [][]c13Tai{{{m, mnc, "000001"}}, {{"208", "93", "000001"}, {m, mnc, "00ab01"}}} {
+				in := c13TaiList{Tais: l}
+				if c.Begin("tailist", "TaiListToNas", in) {
+					c13TaiExec(c, in)
+					n++
+				}
+			}
+			sv := c13Service{Mcc: m, Mnc: mnc, Allowed: mcc%2 == 0, Areas: [][]string{{"000001", "000002"}}}
+			if c.Begin("servicearea", "PartialServiceAreaListToNas", sv) {
+				c13ServiceExec(c, sv)
+				n++
+			}
+			li := c13Ladn{Dnn: "696e7465726e6574", Tais: []c13Tai{{m, mnc, "000001"}}}
+			if c.Begin("ladn", "LadnToNas", li) {
+				c13LadnExec(c, li)
+				n++
+			}
+		}
+	}
 	// TAI lists: all lists of 1..6 over {A,B} x {000001, fffffe}; 7..16 entries: all-same and single deviations
 	// PLMN alphabet: a base PLMN, one sharing its MCC, one sharing its MNC, one differing in both (2- and 3-digit MNCs)
 	taiAlpha := []c13Tai{{"208", "93", "000001"}, {"208", "93", "fffffe"}, {"208", "94", "000001"}, {"262", "93", "000002"}, {"001", "001", "000001"}, {"001", "001", "fffffe"}, {"001", "01", "000004"}, {"208", "093", "000003"}}
